@@ -60,6 +60,13 @@ CLAIMS = {
              "blocks stay inside own raw memory, pool_identify is right, every raw region is returned exactly once, fixed pools call the raw allocator once, allocation recovers afterwards.",
         note="The pool part is fault enumeration with an oracle, not a theorem (the backend is not modelled). OS-level refusal (mmap failure) is injected only through pool raw callbacks, not for the default pool.",
         ref="4/C18"),
+    "C07": dict(
+        technique="Coq proof of a representation invariant for the ring buffer (incl. grow) and of an abstract serial-filter machine driven by an arbitrary environment; token-count invariant; differential correspondence with the real input_buffer; real-thread pipeline oracle",
+        text="Proved for every legal arrival/finish sequence (any arrival order, any buffering, any number of array doublings): items enter a serial filter in token order 0,1,2,... "
+             "(admission_in_order), never while another is inside (serial_exclusion), a waiting item is never lost or overwritten (parked_items_not_lost); and items in flight + idle tokens = "
+             "max_number_of_live_tokens in every reachable state (pipe_token_bound, serial input filter). The buffer model is compared op by op with the real input_buffer; whole pipelines run with real threads under the property oracle.",
+        note="Not modelled: execute_filter's control flow around the buffers, parallel input filters' token handling, end-of-input and cancellation paths (oracle runs only).",
+        ref="4/C07"),
 }
 
 REASONS_TODO = "check not built yet in this round; the design (DESIGN.md section 4) applies and it is planned — listed here only because no check is registered"
